@@ -39,6 +39,9 @@ FALSE_VERDICTS = (
     "index out of bounds",
     "recommendation not met",
     "fails to satisfy `callee.requires",
+    "unable to prove post-condition of closure",
+    "may fail to meet its declared type invariant",
+    "loop ensures not satisfied",
 )
 RLIMIT_MARKERS = ("rlimit exceeded", "Resource limit", "resource limit", "timed out")
 
